@@ -2,6 +2,9 @@ import HappyModel.Proto
 import HappyModel.C16.PolicySpec
 import HappyModel.C16.StoreSpec
 import HappyModel.C16.SoftTtlSpec
+import HappyModel.C16.TierDriver
+import HappyModel.C16.PageDriver
+import HappyModel.C16.WPol
 /-! Line-protocol driver for C16 (see `hv/props/c16.py` for the other side). -/
 namespace HappyModel.C16.Driver
 open HappyModel.Proto HappyModel.C16
@@ -115,6 +118,7 @@ structure Script where
   picks : List (List Key) := []
   ops : List (Nat × OpK) := []
   advs : List (Nat × Nat × List Key) := []
+  warm : Option Nat := none      -- a CacheWarmer with that many keys takes part (its gets are ops ≥ warmBase)
 
 def parseScript (body : List String) : Script :=
   body.foldl (fun sc l =>
@@ -125,7 +129,18 @@ def parseScript (body : List String) : Script :=
       | some o => { sc with ops := sc.ops ++ [(natD i, o)] }
       | none => sc
     | "adv" :: i :: t :: order => { sc with advs := sc.advs ++ [(natD i, natD t, nats order)] }
+    | ["warm", n] => { sc with warm := some (natD n) }
     | _ => sc) {}
+
+/-- what the warmer reports at the end, from what its gets returned (`warm_keys` counts a value as
+    warmed, `None` as failed, and completes after the last key) -/
+def warmLine (n : Nat) (out : List String) : String :=
+  let rets := out.filterMap fun l => match toks l with
+    | ["ret", i, v] => if warmBase ≤ natD i then some v else none
+    | _ => none
+  let warmed := (rets.filter (· != "None")).length
+  let failed := (rets.filter (· == "None")).length
+  s!"warm n={n} warmed={warmed} failed={failed} complete={if rets.length == n then 1 else 0}"
 
 /-- clock reading handed to the TTL policy: milliseconds -/
 def msOf (t : Nat) : Nat := t / 1000000
@@ -153,7 +168,10 @@ def runStore (variant name : String) (arg cap : Nat) (wt : Bool) (body : List St
             | some x => [stateLine i r.1, s!"ret {i} {showRes' x}"]
             | none => [stateLine i r.1]
           ls ++ go r.1 (i :: started) rest
-    go { pol := p0 } [] sc.advs
+    let out := go { pol := p0 } [] sc.advs
+    match sc.warm with
+    | some n => out ++ [warmLine n out]
+    | none => out
 
 /-- `obs i | C … | D … | P … | R res` -/
 def parseObsLine (l : String) : Option Obs :=
@@ -171,9 +189,21 @@ def judgeStoreBlock (name : String) (arg cap : Nat) (wt : Bool) (body : List Str
   let nObs := (body.filter (fun l => l.startsWith "obs ")).length
   if nObs != evs.length then ["viol store/malformed-judge-input"] else
   let _ := name; let _ := arg
+  let kv := fun (ts : List String) (key : String) =>
+    natD (((ts.find? (·.startsWith (key ++ "="))).getD "").drop (key.length + 1)).toString
+  let warm : Option WarmObs := body.findSome? fun l => match toks l with
+    | "warmobs" :: ts => some ⟨kv ts "n", kv ts "warmed", kv ts "failed", kv ts "complete" == 1⟩
+    | _ => none
   match judgeStore ⟨cap, wt, false, []⟩ sc.ops evs fin with
-  | none => ["ok"]
   | some sig => [s!"viol {sig}"]
+  | none =>
+    match sc.warm, warm with
+    | some _, none => ["viol warmer/missing-observation"]
+    | _, some w =>
+      match judgeWarm evs w with
+      | none => ["ok"]
+      | some sig => [s!"viol {sig}"]
+    | none, none => ["ok"]
 
 /-! ### SoftTTLCache -/
 
@@ -256,6 +286,16 @@ def handle (hdr : List String) (body : List String) : List String :=
   | ["judge-store", name, arg, cap, wt] => judgeStoreBlock name (natD arg) (natD cap) (wt == "1") body
   | ["softttl", variant, soft, hard, cap] => runSoft variant (natD soft) (natD hard) (natD cap) body
   | ["judge-softttl", hard] => judgeSoftBlock (natD hard) body
-  | _ => ["bad-mode"]
+  | _ =>
+    -- families kept in their own files: MultiTierCache (`tier…`), PageCache (`page…`), write policies (`wpol…`)
+    match Tier.handle? hdr body with
+    | some out => out
+    | none =>
+      match Page.handle? hdr body with
+      | some out => out
+      | none =>
+        match WPol.handle? hdr body with
+        | some out => out
+        | none => ["bad-mode"]
 
 end HappyModel.C16.Driver
